@@ -15,9 +15,14 @@ CONSTANTS
   FixRevertVerify = TRUE
   FixUnderflow = FALSE
   Fine = FALSE
-  EmptyDiff = {2, 4}
+  EmptyDiff = {}
   RootCheckedOnEmptyDiff = TRUE
   VerdictPerAnswer = TRUE
+  ClassA = {2, 4}
+  ClassB = {3, 4}
+  SierraSet = {2}
+  RememberKnown = FALSE
+  Windows = FALSE
 SPECIFICATION FairSpec
 PROPERTIES EventuallyConverges 
 CHECK_DEADLOCK TRUE
